@@ -1,5 +1,5 @@
 //@ unit rmgr_ownership_w
-//@ props C01
+//@ props C01 C02
 //@ kind W
 //@ def all NSTK=2 NNAME=2
 //@ cbmc all --unwind 5 --unwinding-assertions
@@ -9,7 +9,7 @@
 #define VERIF_DEFINE_GHOSTS
 #include "verif_prelude.h"
 struct XMLReader { char o; }; typedef struct XMLReader XMLReader;
-struct XMLEntityDecl { XMLCh name[NNAME + 1]; }; typedef struct XMLEntityDecl XMLEntityDecl;
+struct XMLEntityDecl { XMLCh name[NNAME + 1]; XMLSize_t id; /* pool id: general and parameter entities live in separate pools, so ids of different entities may coincide */ }; typedef struct XMLEntityDecl XMLEntityDecl;
 struct ReaderData { XMLReader *fReader; XMLEntityDecl *fEntity; bool fEntityAdopted; };
 typedef struct ReaderData ReaderMgr_ReaderData;
 XMLReader READER; XMLEntityDecl ENTITY, STK_ENT[NSTK]; struct ReaderData STK[NSTK], CUR, NEWDATA;
@@ -17,6 +17,7 @@ XMLSize_t STK_COUNT; _Bool HAVE_STACK, STACK_CREATED; int PUSHED, NEW_MADE;
 int READER_FREED, ENTITY_FREED, OTHER_FREED;
 static void OWN_delete(const void *p) { if (!p) return; if (p == (const void*)&READER) READER_FREED++; else if (p == (const void*)&ENTITY) ENTITY_FREED++; else OTHER_FREED++; }
 static const XMLCh* ED_getName(const XMLEntityDecl *e) { return e->name; }
+static XMLSize_t ED_getId(const XMLEntityDecl *e) { return e->id; }
 static bool ST_equals(const XMLCh *a, const XMLCh *b) { for (int k = 0; k < NNAME + 1; k++) { if (a[k] != b[k]) return false; if (!a[k]) return true; } return true; }
 static XMLSize_t RS_size(void) { return STK_COUNT; }
 static const XMLEntityDecl* RS_entityAt(XMLSize_t i) { return STK[i].fEntity; }
@@ -29,9 +30,9 @@ void *fReaderStack; struct ReaderData *fCurReaderData; XMLReader *fCurReader;
 ret false
 sub fReaderStack->size\(\) => RS_size()
 sub fReaderStack->elementAt\(index\)->getEntity\(\) => RS_entityAt(index)
-sub entity->getName\(\) => ED_getName(entity)
-sub curDecl->getName\(\) => ED_getName(curDecl)
-sub XMLString::equals\( => ST_equals(
+sub* (\w+)->getName\(\) => ED_getName(\1)
+sub* (\w+)->getId\(\) => ED_getId(\1)
+sub* XMLString::equals\( => ST_equals(
 sub delete reader; => OWN_delete(reader);
 sub* delete entity; => OWN_delete(entity);
 sub new \(fMemoryManager\) RefStackOf<ReaderData>\(16, true, fMemoryManager\) => RS_new()
